@@ -505,6 +505,8 @@ var constructs = map[string]string{
 	"huge_int":              "{ echo(x: 99999999999999999999999999) }",
 	"float_for_int":         "{ echo(x: 1.5e300) }",
 	"unicode_escape":        "{ echo(x: \"\\u0000\\ud800\") }",
+	"default_used":          "query Q($a: Int = 3) { echo(x: $a) }",
+	"default_in_fragment":   "query Q($a: Int = 3) { ...F } fragment F on Query { echo(x: $a) }",
 	"block_comment_garbage": "{ t { id } } # \x00\xff",
 	// one named fragment spread under two object types, valid under the first one only
 	"fragment_on_two_types_t_u":    "{ t { ...F } u { ...F } } fragment F on T { name }",
@@ -674,6 +676,9 @@ func Main(args []string) error {
 	for name, text := range constructs {
 		o, e, ms := runText(gql, text, map[string]interface{}{}, 5*time.Second)
 		w.Write(Rec{Kind: "construct", Name: name, Outcome: o, Err: cut(e, 200), Ms: ms, Text: cut(text, 200), Returned: o != "hang"})
+		// the same request without any variables (a body with no "variables" key, or null): a nil map
+		o, e, ms = runText(gql, text, nil, 5*time.Second)
+		w.Write(Rec{Kind: "construct", Name: name, Outcome: o, Err: cut(e, 200), Ms: ms, Text: cut(text, 200) + " (no variables)", Returned: o != "hang"})
 	}
 	for _, d := range []int{10, 100, 1000} {
 		text := deepNest(d)
